@@ -410,3 +410,38 @@ def c15(run):
     run.samples.append({"descriptor": descs[len(descs) // 2]})
     run.assumptions += [BOUNDED, "the drop ledger lives in the harness' element type (per-id created/dropped counts, "
                         "12-byte payload derived from the id)", "panicking paths are not completed paths (no leak check)"]
+
+
+# ------------------------------------------------------------------------------------------- C11
+@check("C11", rule="one program per (macro in map!/map_!/from_fn!/from_fn_!, length 0..3, Copy / non-Copy element, closure "
+                    "exit in none/break/continue/return/panic, exit position), plus collect_const! and ArrayBuilder "
+                    "under/over-filling programs; the observed ending (value / panic / left the function / does not "
+                    "terminate / rejected by rustc) is compared with the model's; non-trivial = length >= 1")
+def c11(run):
+    import progs
+    import gen_arraybuild as ga
+    out = vec("C11-ArrayBuild.ndjson")
+    if os.path.exists(out):
+        os.remove(out)
+    run.mc("MC_ArrayBuild", "ArrayBuild.cfg", env={"OUT": out}, heap="4g", timeout=2000)
+    descs = {}
+    for l in open(out):
+        r = json.loads(l)
+        descs[(r["form"], r["n"], r["exit"], r["pos"])] = r
+    run.samples += list(descs.values())[:3]
+    ps = progs.ProgSet(run, "C11-arraybuild")
+    for r in descs.values():
+        if run.tier == "quick" and r["ending"] == "loop" and not (r["n"] == 2 and r["pos"] == 1):
+            continue        # non-terminating programs cost a timeout each: quick keeps one per macro
+        for body, exp, rec, isolate, hostile in ga.cases(r):
+            if hostile:
+                # the property: never an array with an unwritten element; it loops, panics, leaves or does not compile
+                ps.add(body, exp, rec, isolate=isolate,
+                       accept=lambda g: g in ("PANIC", "TIMEOUT", "None", "COMPILE-ERROR"))
+            else:
+                ps.add(body, exp, rec)
+    for body, exp, rec in ga.builder_cases():
+        ps.add(body, exp, rec)
+    ps.execute()
+    run.assumptions += [BOUNDED, "closure exits are generated from a fixed template (exit statement at a chosen "
+                        "element); a 3 s timeout stands for non-termination"]
